@@ -159,13 +159,39 @@ def install_sow2(R):
 
     R.add(K + "Crop.runner", cls="Crop", result="V", props=["C06"],
           ensures=[("none", "implies(self.farmer is None, result is None)"),
-                   ("runner", "implies(isinstance(self.farmer, Runner), result == self.farmer)")])
+                   ("runner", "implies(isinstance(self.farmer, Runner), result == self.farmer)"),
+                   ("of_harvester_or_sampler", "implies(not isinstance(self.farmer, Runner) and (isinstance(self.farmer, Harvester) or isinstance(self.farmer, Sampler)), "
+                                               "result == self.farmer.runner)"),
+                   ("is_crop_runner", "result == CropRunner(self)")])
+
+    def crop_runner(eng, fr, crop):
+        """the Runner behind a crop: its farmer if that is a Runner, the farmer's runner for a Harvester / Sampler, else None"""
+        from pyvc.builtins import isinstance_of
+        f = eng.heap_get(fr.st, crop, "farmer")
+        fv = eng.as_V(f)
+        sub = z3.Function("ext:attr.runner/1", V, V)(fv)
+        is_r = isinstance_of(eng, f, "Runner", fr)
+        is_h = z3.Or(isinstance_of(eng, f, "Harvester", fr), isinstance_of(eng, f, "Sampler", fr))
+        return mk_V(z3.If(is_r, fv, z3.If(is_h, sub, T.VNone)))
+    S["CropRunner"] = crop_runner
 
     R.add(K + "Crop.parse_constants", cls="Crop", result="V", props=["C04", "C06"],
           requires=[("constants", "constants is None or is_dict(constants)")],
           ensures=[("raw", "implies(self.farmer is None, (result == constants) if is_dict(constants) else slen(result.keys()) == 0)"),
-                   ("dict", "is_dict(result)")],
+                   ("dict", "is_dict(result)"),
+                   # what a direct Runner.run_combos(combos, constants=...) hands to the function: the per-run constants win over the
+                   # runner's stored constants, which win over its resources
+                   ("farmer_constants_then_resources_underneath",
+                    "implies(CropRunner(self) is not None and is_dict(CropRunner(self)._constants) and is_dict(CropRunner(self)._resources), forall(lambda v_k: "
+                    "mhas(result, v_k) == (GivenHas(old(constants), v_k) or mhas(CropRunner(self)._constants, v_k) or mhas(CropRunner(self)._resources, v_k)) and "
+                    "implies(mhas(result, v_k), mat(result, v_k) == (mat(old(constants), v_k) if GivenHas(old(constants), v_k) else "
+                    "(mat(CropRunner(self)._constants, v_k) if mhas(CropRunner(self)._constants, v_k) else mat(CropRunner(self)._resources, v_k))))))")],
           raises={"AnyError": dict()})
+
+    def given_has(eng, fr, c, k):
+        cv = eng.as_V(c)
+        return mk_bool(z3.And(z3.Not(T.is_VNone(cv)), T.mhas(cv, eng.as_V(k))))
+    S["GivenHas"] = given_has
 
     def sower_stream_rule(eng, cf, res):
         """Callback rule (meta-theorem: induction over the runner's calls with the callee's own call contract): if the function
